@@ -9,7 +9,7 @@ import sys
 VERIF = '/verif'
 args = [a for a in sys.argv[1:] if not a.startswith('--')]
 opts = dict(a[2:].split('=', 1) for a in sys.argv[1:] if a.startswith('--') and '=' in a)
-seeds = args or sorted(os.listdir(os.path.join(VERIF, 'seeded')))
+seeds = args or sorted(d for d in os.listdir(os.path.join(VERIF, 'seeded')) if os.path.isdir(os.path.join(VERIF, 'seeded', d)))
 tier = opts.get('tier', 'quick')
 import shutil
 import tempfile
